@@ -19,6 +19,9 @@ import (
 	"strings"
 	"sync"
 
+	git "github.com/go-git/go-git/v6"
+	"github.com/go-git/go-git/v6/plumbing"
+
 	"verif/internal/gen"
 	"verif/internal/gitx"
 	"verif/internal/obs"
@@ -213,6 +216,100 @@ func changedSet(pre, post state) ([]string, []string) {
 	}
 	sort.Strings(out)
 	return out, det
+}
+
+// inproc is what the Repository object itself reports: index entries, status, HEAD and branches
+// read through its own storer. A refused call must not change it either (the caller keeps using
+// that Repository), even when the files on disk are intact.
+type inproc struct {
+	Index  []string
+	Status []string
+	Head   string
+	Heads  []string
+	Err    string
+}
+
+func observeInproc(repo *git.Repository, dir string) inproc {
+	var o inproc
+	pv, _ := vf.Catch(func() {
+		idx, err := repo.Storer.Index()
+		if err != nil {
+			o.Err += "index: " + err.Error() + "; "
+		} else {
+			for _, e := range idx.Entries {
+				o.Index = append(o.Index, fmt.Sprintf("%s %s %d skip=%v ita=%v %s", e.Mode, e.Hash, e.Stage, e.SkipWorktree, e.IntentToAdd, e.Name))
+			}
+			sort.Strings(o.Index)
+		}
+		if w, err := repo.Worktree(); err == nil {
+			st, err := w.Status()
+			if err != nil {
+				o.Err += "status: " + err.Error() + "; "
+			}
+			for p, fs := range st {
+				o.Status = append(o.Status, fmt.Sprintf("%c%c %s", fs.Staging, fs.Worktree, p))
+			}
+			sort.Strings(o.Status)
+		}
+		if h, err := repo.Storer.Reference(plumbing.HEAD); err == nil {
+			o.Head = h.String()
+		} else {
+			o.Head = "ERR " + err.Error()
+		}
+		// every branch name present on disk, resolved through the repository's own storer (IterReferences
+		// would stop at the first unreadable reference of any kind, e.g. a torn remote-tracking ref)
+		var names []string
+		for n := range rawBranches(dir) {
+			names = append(names, n)
+		}
+		sort.Strings(names)
+		for _, n := range names {
+			if r, err := repo.Storer.Reference(plumbing.ReferenceName(n)); err == nil {
+				o.Heads = append(o.Heads, r.String())
+			} else {
+				o.Heads = append(o.Heads, n+" ERR "+err.Error())
+			}
+		}
+	})
+	if pv != nil {
+		o.Err += fmt.Sprintf("panic: %v", pv)
+	}
+	return o
+}
+
+// inprocFresh observes the directory through a Repository opened only for that purpose.
+func inprocFresh(dir string) (inproc, error) {
+	r, err := git.PlainOpen(dir)
+	if err != nil {
+		return inproc{}, err
+	}
+	defer r.Close()
+	return observeInproc(r, dir), nil
+}
+
+func diffInproc(a, b inproc) ([]string, []string) {
+	var set, det []string
+	if strings.Join(a.Index, "\n") != strings.Join(b.Index, "\n") {
+		set = append(set, "index")
+		det = append(det, "Storer.Index(): "+firstDiff(a.Index, b.Index))
+	}
+	if strings.Join(a.Status, "\n") != strings.Join(b.Status, "\n") {
+		set = append(set, "status")
+		det = append(det, "Worktree.Status(): "+firstDiff(a.Status, b.Status))
+	}
+	if a.Head != b.Head {
+		set = append(set, "HEAD")
+		det = append(det, fmt.Sprintf("HEAD %s -> %s", a.Head, b.Head))
+	}
+	if strings.Join(a.Heads, "\n") != strings.Join(b.Heads, "\n") {
+		set = append(set, "branch")
+		det = append(det, "branches: "+firstDiff(a.Heads, b.Heads))
+	}
+	if a.Err != b.Err {
+		set = append(set, "unreadable")
+		det = append(det, fmt.Sprintf("errors %q -> %q", a.Err, b.Err))
+	}
+	return set, det
 }
 
 func firstDiff(a, b []string) string {
